@@ -42,7 +42,7 @@ def check(ctx):
                 fnc = tr.entry.func
                 if tr.path.exit_kind() == "raise":
                     continue
-                ok, fires = drains(tr.path.events, reg)
+                ok, fires = drains(tr.path.events, reg, "after-cancel")
                 lps = loops_over(tr.path.events, reg)
                 ctx.ob("X-DRAIN", "%s clean loss fails every entry of %s" % (cq, reg), ok,
                        where=where(lps[0]) if lps else "%s:%d" % (fnc.file, fnc.node.lineno), function=lps[0].func if lps else fnc.qual,
